@@ -609,3 +609,5 @@ def check(ctx, rep):
     memo_rule(ctx, rep, 'C02g', ('peptacular.mass_calc', 'peptacular.chem.chem_util', 'peptacular.mods.mod_db', 'peptacular.glycan'))
     from .common import stale_accumulator_rule
     stale_accumulator_rule(ctx, rep, 'C02b', ('peptacular.mass_calc', 'peptacular.chem.chem_calc'), floor=3)
+    from .common import optional_number_tests_rule
+    optional_number_tests_rule(ctx, rep, 'C02c', ('peptacular.mass_calc', 'peptacular.chem.chem_util', 'peptacular.chem.chem_calc', 'peptacular.glycan', 'peptacular.mods.mod_db', 'peptacular.fragmentation', 'peptacular.isotope'))
